@@ -59,6 +59,11 @@ class Sem:
             if lo is None or hi is None:
                 return None
             return ("cnt", aff_add(A, (0, lo))), (lambda n, c=max(0, hi - lo): c)
+        if util.is_call(it) and it[1].endswith("RangeInclusive::<Idx>::new") and len(it[2]) == 2:
+            lo, hi = const_usize(it[2][0]), const_usize(it[2][1])
+            if lo is None or hi is None:
+                return None
+            return ("cnt", aff_add(A, (0, lo))), (lambda n, c=max(0, hi - lo + 1): c)
         if not util.is_call(it):
             # a slice / array reference iterated directly (`for x in data`)
             ln = self.lens(it)
@@ -227,6 +232,11 @@ class Sem:
                 out.append((None, None, strip(v)))
                 continue
             sv = strip(v)
+            if sv[0] == "cast" and sv[1] == "IntToInt":
+                inner = self.resolve(sv[2], selem, item)
+                if inner is not None and inner[0] == "cnt":
+                    out.append((dest[0], dest[1], ("cnt", inner[1], sv[3])))
+                    continue
             val = self.resolve(v, elem, item) or self.resolve(sv, selem, item)
             if val is not None and val[0] in ("val", "loc"):
                 val = ("at", strip(val[1]) if val[0] == "val" else val[1], val[2])
